@@ -29,7 +29,10 @@ MatchNext(r) ==
   /\ apc' = [a \in Apps |-> r.apc[a]]
   /\ rpc' = r.rpc
   /\ epc' = EpcOf(r)
-  /\ (InTick(epc') => eq' = r.eq)
+  /\ (InTick(epc') => /\ eq' \in 1..Len(qorder')
+                        /\ qorder'[eq'] = r.eqa
+                        /\ r.eql = (\A j \in (eq'+1)..Len(qorder') : qorder'[j] # qorder'[eq']))
+  /\ Len(qorder') = r.nq
   /\ \A a \in Apps : Len(cmds'[a]) = r.len[a]
   /\ engineRunning' = r.run
   /\ tickScheduled' = (r.ev > 0)
@@ -39,6 +42,7 @@ MatchNow(r) ==
   /\ apc = [a \in Apps |-> r.apc[a]]
   /\ rpc = r.rpc /\ epc = EpcOf(r)
   /\ \A a \in Apps : Len(cmds[a]) = r.len[a]
+  /\ Len(qorder) = r.nq
   /\ engineRunning = r.run /\ tickScheduled = (r.ev > 0)
 
 TStart == Is("Start") /\ MatchNow(Ev) /\ UNCHANGED vars
@@ -55,11 +59,13 @@ TDone == Is("Done") /\ AllReturned /\ (\A a \in Apps : done[a] = issued[a]) /\ M
 
 TReset ==
   /\ Is("Reset") /\ Ev.na = NA /\ Ev.rounds = Rounds /\ Ev.per_round = PerRound
+  /\ {Ev.temp[i] : i \in 1..Len(Ev.temp)} = TempApps
   /\ cmds' = [a \in Apps |-> <<>>] /\ issued' = [a \in Apps |-> <<>>] /\ done' = [a \in Apps |-> <<>>]
-  /\ apc' = [a \in Apps |-> "enq"] /\ round' = [a \in Apps |-> 1] /\ left' = [a \in Apps |-> PerRound]
+  /\ apc' = [a \in Apps |-> IF a \in TempApps THEN "create" ELSE "enq"] /\ round' = [a \in Apps |-> 1] /\ left' = [a \in Apps |-> PerRound]
   /\ sub' = [a \in Apps |-> FALSE] /\ token' = [a \in Apps |-> FALSE]
   /\ rpc' = "select" /\ engineRunning' = FALSE /\ rerun' = FALSE
   /\ epc' = "none" /\ eq' = 1 /\ eprog' = FALSE /\ pauseLock' = "free" /\ tickScheduled' = FALSE
+  /\ qorder' = SetToSortedSeq(OwnApps)
 
 TNext == TStart \/ TStep \/ TDone \/ TReset
 TSpec == Init /\ l = 1 /\ [][TNext]_tvars
